@@ -646,7 +646,13 @@ class Extraction:
             con = self.contracts.get(key)
             if con is not None:
                 self.used_contracts.add(key)
-            out = splice(t, con, key, c)
+            broken = None
+            try:
+                out = splice(t, con, key, c)
+            except Undecided as e:
+                # a lost anchor concerns only the checks whose cone contains this function
+                broken = str(e)
+                out = t
             # fidelity self-check: strip what was added, undo the marked rewrites, compare tokens
             back = restore_rewrites(strip_inserts(out))
             want = rl.sig_texts(_use_stmt_re.sub("", text))
@@ -654,7 +660,7 @@ class Extraction:
             if want != got:
                 raise Undecided("%s: fidelity self-check failed" % key)
             self.functions[key] = dict(file=rel, qual=qual, name=it.name, impl=impl.self_type if impl else None, sha256=sha,
-                                       contract=con, src_text=text)
+                                       contract=con, src_text=text, broken=broken)
             self.order.append(("fn", key, ("    " if impl else "") + out))
             return
         raise Undecided("%s: unhandled item kind %s" % (rel, it.kind))
@@ -692,7 +698,10 @@ class Extraction:
 
         add("#![allow(unused, non_snake_case, non_camel_case_types)]\nuse vstd::prelude::*;\nuse core::cmp::Ordering;\nverus! {\n")
         for (n, k, t, f) in (lib_items or []):
-            if canary and k in ("proof", "exec"):
+            if canary and "by (compute" in t:
+                # requires-free computation lemmas: nothing to probe, and re-running the computation would double the cost
+                t = "#[verifier::external_body] /* canary: skipped */\n" + t
+            elif canary and k in ("proof", "exec"):
                 t = re.sub(r"(?m)^\{[ \t]*\n((?:[ \t]*(?:hide|reveal)\([^\n]*\n)*)", lambda m: "{\n" + m.group(1) + "    assert(false); // canary\n", t, count=1)
             add(t + "\n", n, k)
         impl_open = None
@@ -868,6 +877,29 @@ def _fn_mentions(text, own_type, fn_index):
             if prev2 == "self" and (i < 3 or st[i - 3].text != ".") and any(impl == own_type for (k, impl, ar) in cands):
                 ms = {k for (k, impl, ar) in cands if impl == own_type}
             out |= ms
+        elif nxt == "(" and prev != "fn":
+            out |= {k for (k, impl, ar) in cands if impl is None}
+    return out
+
+
+def _fn_mentions_any_arity(text, own_type, fn_index):
+    """like _fn_mentions but ignoring arity (fn_index entries carry arity -1)"""
+    st = rl.sig(rl.lex(text))
+    out = set()
+    for i, t in enumerate(st):
+        if t.kind != rl.IDENT or t.text not in fn_index:
+            continue
+        prev = st[i - 1].text if i > 0 else ""
+        prev2 = st[i - 2].text if i > 1 else ""
+        nxt = st[i + 1].text if i + 1 < len(st) else ""
+        cands = fn_index[t.text]
+        if prev == ":" and prev2 == ":":
+            ty = st[i - 3].text if i > 2 else ""
+            if ty == "Self":
+                ty = own_type
+            out |= {k for (k, impl, ar) in cands if impl == ty}
+        elif prev == "." and nxt == "(":
+            out |= {k for (k, impl, ar) in cands if impl is not None}
         elif nxt == "(" and prev != "fn":
             out |= {k for (k, impl, ar) in cands if impl is None}
     return out
